@@ -150,6 +150,7 @@ func drawC09(t *rapid.T) C09Case {
 		MaxDec:        rapid.SampledFrom([]int{2, 4, 8}).Draw(t, "maxDec"),
 		Unicode:       rapid.IntRange(0, 2).Draw(t, "unicode") == 0,
 		MultiLineDesc: true,
+		WideDates:     true,
 	}
 	j := gen.GenJournal(t, cfg)
 	// several prices for one pair on one day (either direction): within one file the last one counts, and
